@@ -62,7 +62,11 @@ fn post_text(p: Post) -> &'static str {
 
 /// operand tree: postfix operators apply first (left to right), then prefix operators
 fn operand(name: &str, pre: Pre, post: Post) -> T {
-    let mut t = T::id(name);
+    operand_on(T::id(name), pre, post)
+}
+
+fn operand_on(base: T, pre: Pre, post: Post) -> T {
+    let mut t = base;
     let apply_post = |t: T, p: &str| -> T {
         match p {
             "!" => T::Fact(Box::new(t)),
@@ -169,6 +173,60 @@ fn check_text(ctx: &Ctx, kind: &str, class: &str, text: &str, expected: &T) {
             },
             case: json!({"text": full, "full": full}),
         });
+    }
+}
+
+/// Canonical tree text with negation folded into number literals: `(neg 5)` and the literal `-5` are
+/// the same constant, and the table does not say which of the two a parser must build.
+fn fold_negated_literals(canon: &str) -> String {
+    let mut s = canon.to_string();
+    loop {
+        let Some(start) = s.find("(neg ") else { return s };
+        // look for an occurrence whose operand is a single number token
+        let mut replaced = false;
+        let mut from = start;
+        while let Some(off) = s[from..].find("(neg ") {
+            let a = from + off;
+            let rest = &s[a + 5..];
+            let end = rest.find(|c: char| c == ')' || c == '(' || c == ' ').unwrap_or(rest.len());
+            let tok = &rest[..end];
+            if rest[end..].starts_with(')') && tok.contains('#') {
+                if let Some(bits) = tok.rsplit('#').next().and_then(|h| u64::from_str_radix(h, 16).ok()) {
+                    let folded = num_repr(f64::from_bits(bits ^ (1u64 << 63)));
+                    s = format!("{}{}{}", &s[..a], folded, &rest[end + 1..]);
+                    replaced = true;
+                    break;
+                }
+            }
+            from = a + 5;
+        }
+        if !replaced {
+            return s;
+        }
+    }
+}
+
+/// As `check_text`, for operands that are literals: trees are compared after folding negated number
+/// literals on both sides.
+fn check_text_literal(ctx: &Ctx, class: &str, text: &str, expected: &T) {
+    ctx.count(1);
+    let want = fold_negated_literals(&expr_canon(&expected.to_expr()));
+    for (what, src) in [("prefix-postfix-literal", text.to_string()), ("prefix-postfix-literal-parenthesised", expected.full())] {
+        let got = parse_one(&src);
+        let ok = matches!(&got, Ok(e) if fold_negated_literals(&expr_canon(e)) == want);
+        if !ok {
+            ctx.violation(Violation {
+                kind: what.to_string(),
+                class: class.to_string(),
+                input: src.clone(),
+                expected: want.clone(),
+                observed: match &got {
+                    Ok(e) => expr_canon(e),
+                    Err(m) => format!("parse failure: {}", truncate(m, 160)),
+                },
+                case: json!({"text": src, "full": expected.full(), "fold": true}),
+            });
+        }
     }
 }
 
@@ -790,6 +848,46 @@ pub fn run(ctx: &Ctx, replay: Option<&J>) -> i32 {
                     let texts = vec![format!("{}a", pre_text(p)), format!("b{}", post_text(q)), format!("{}c{}", pre_text(p), post_text(q))];
                     let t = climb(&operands, &ops);
                     check_text(ctx, "prefix-postfix-chain", "chain", &chain_text(&texts, &ops), &t);
+                }
+            }
+        }
+    }
+
+    // literal operands: a sign, `!` or `not` in front of a literal is the table's prefix operator, and
+    // postfix operators bind to the literal first - alone and on either side of every binary operator
+    {
+        let lits: Vec<(&str, T, bool)> = vec![
+            ("0", T::num(0.0), true),
+            ("3", T::num(3.0), true),
+            ("1.5", T::num(1.5), true),
+            ("0x10", T::num(16.0), true),
+            ("0b11", T::num(3.0), true),
+            ("1e3", T::num(1000.0), true),
+            (".5", T::num(0.5), true),
+            ("1_000", T::num(1000.0), true),
+            ("\"s\"", T::Str("s".into()), false),
+            ("true", T::Bool(true), false),
+            ("null", T::Null, false),
+            ("#k", T::Inp("k".into()), false),
+        ];
+        for (text, base, numeric) in &lits {
+            for p in PRES {
+                for q in POSTS {
+                    // `3.k` is a question of number lexing, not of the operator table
+                    if *numeric && matches!(q, Post::Field) {
+                        continue;
+                    }
+                    let t = operand_on(base.clone(), p, q);
+                    let ot = format!("{}{}{}", pre_text(p), text, post_text(q));
+                    check_text_literal(ctx, &format!("{:?}/{:?} on {}", p, q, text), &ot, &t);
+                    ctx.outcome("prefix-postfix-literal");
+                    ctx.nontrivial(&ot);
+                    if thorough || matches!(q, Post::None | Post::Fact | Post::Index) {
+                        for &op in &ALL_BINOPS {
+                            check_text_literal(ctx, &format!("a {} {:?}/{:?} on {}", op_text(op), p, q, text), &format!("a {} {}", op_text(op), ot), &T::bin(op, T::id("a"), t.clone()));
+                            check_text_literal(ctx, &format!("{:?}/{:?} on {} {} b", p, q, text, op_text(op)), &format!("{} {} b", ot, op_text(op)), &T::bin(op, t.clone(), T::id("b")));
+                        }
+                    }
                 }
             }
         }
